@@ -107,6 +107,18 @@ CLAIMED = {
         "YAML model ref/catalogue.py; function-altering = effect field present on the variant's first occurrence",
         "DESIGN.md section 4 C09",
     ),
+    "C06": (
+        "post-load monitor: per-position table vs independent CIGAR interpreter over the written reads; metamorphic re-runs; htslib second opinion",
+        "Hostile read sets (random CIGARs over M,=,X,I,D,S,H with leading/trailing insertions, adjacent I/D, clips, all "
+        "flags, qualities, shared fragment names, planted complete/incomplete catalogued multi-nucleotide substitutions) "
+        "are written as real BAM files for generated genes of either strand; after Sample(...) every region position's "
+        "depth, per-base counts, deleted-base counts, quality pairs and the phase records are compared with an "
+        "independent CIGAR interpreter over the same reads; the read set is re-written shuffled and with re-split / "
+        "re-typed match runs and must give the same table; the shipped NA10860 BAMs are checked against the interpreter "
+        "and htslib's count_coverage.",
+        "pysam/htslib writes the BAM faithfully; interpreter in props/c06.py",
+        "DESIGN.md section 4 C06",
+    ),
 }
 
 NOT_YET = {}
